@@ -509,3 +509,13 @@ Definition roller_of (g : gstate) (i : inst) : option N :=
 Definition cache_fresh (e : env) (g : gstate) (effs : list effect) : Prop :=
   forall f u, In (EAuth f u) effs ->
   assoc f (g_htcache g) = None \/ assoc f (g_htcache g) = Some (h_users (env_get e f)).
+
+(* the basic-auth matcher a valid configuration gets in a fresh process: user of its (last) htpasswd line
+   and the password the file holds for it NOW *)
+Fixpoint expected_auth (e : env) (effs : list effect) (acc : option (N * N)) : option (N * N) :=
+  match effs with
+  | [] => acc
+  | EAuth f u :: r =>
+      expected_auth e r (match assoc u (h_users (env_get e f)) with Some pw => Some (u, pw) | None => acc end)
+  | _ :: r => expected_auth e r acc
+  end.
